@@ -121,6 +121,33 @@ func checkC19(c *ProgCase) *Outcome {
 			return bad("the report does not show value %s at column %d\n report:\n%s", text, e.Col, report)
 		}
 	}
+	// ---- (d) every evaluation, not only the first: the same compiled closure with
+	// the same record (cleared by DebugCompile when an evaluation starts) gives
+	// the same entries and the same report again
+	for round := 2; round <= 3; round++ {
+		var res2 *val.Val
+		var rerr2 error
+		pan2 := run.Guard(func() { res2, rerr2 = callable(ve) })
+		if (pan2 != nil || rerr2 != nil) != failed {
+			return bad("debug evaluation %d of the same compiled expression %s, the first one %s\n src: %s", round, outcomeText(res2, rerr2, pan2), outcomeText(res, rerr, pan), r.Src)
+		}
+		again := rcd.VerifEntries()
+		if len(again) != len(entries) {
+			return bad("debug evaluation %d with the same record has %d entries, the first one %d\n recorded: %s\n first: %s\n src: %s", round, len(again), len(entries), fmtEntries(again), fmtEntries(entries), r.Src)
+		}
+		for i := range again {
+			if again[i].Col != entries[i].Col || again[i].V.String() != entries[i].V.String() {
+				return bad("debug evaluation %d with the same record: entry %d is %s at column %d, in the first evaluation %s at column %d\n src: %s", round, i, again[i].V.String(), again[i].Col, entries[i].V.String(), entries[i].Col, r.Src)
+			}
+		}
+		var report2 string
+		if p := run.Guard(func() { report2 = rcd.Render(r.Src) }); p != nil {
+			return bad("rendering the report of evaluation %d failed: %s\n src: %s", round, p.Text, r.Src)
+		}
+		if report2 != report {
+			return bad("report of evaluation %d differs from the first\n first:\n%s\n now:\n%s", round, report, report2)
+		}
+	}
 	// ---- (a) the public Debug entry point agrees with Eval and the reference
 	usesHarness := false
 	r.Core.Walk(func(e *m.Expr) {
@@ -237,7 +264,7 @@ var c19apiOpt = gen.ProgOpt{Fuel: 4, Partial: true, Sugar: true, Maybe: true, Ti
 var c19api = Register(&Prop[ProgCase]{ID: "C19", Name: "debug-api", Gen: genProgCase(c19apiOpt, nil), Check: checkC19})
 
 func TestC19(t *testing.T) {
-	R.Rule = "accepted single-line programs (ASCII and non-ASCII identifiers and strings, sugar, unevaluated lazy branches, failing operands) over conforming environments; oracle: (a) yae.Debug returns the same value / failure as Eval and the reference; (b) closure.DebugCompile with a debug.Record read through the hook records exactly the reference evaluator's evaluated variable / call / member / subscript terms, in completion order, each with its value and the column of its own token + 1 (identifier start, operator token, '(' of a call, '.', '['); (c) Render does not fail, its first line is the source and every recorded single-line value appears at its column on a later line; non-trivial = >= 3 recorded terms and an unevaluated branch, a non-ASCII rune before a recorded term, or two values competing for a line"
+	R.Rule = "accepted single-line programs (ASCII and non-ASCII identifiers and strings, sugar, unevaluated lazy branches, failing operands) over conforming environments; oracle: (a) yae.Debug returns the same value / failure as Eval and the reference; (b) closure.DebugCompile with a debug.Record read through the hook records exactly the reference evaluator's evaluated variable / call / member / subscript terms, in completion order, each with its value and the column of its own token + 1 (identifier start, operator token, '(' of a call, '.', '['); (c) Render does not fail, its first line is the source and every recorded single-line value appears at its column on a later line; (d) a second and third evaluation of the same compiled expression with the same record give the same entries and report; non-trivial = >= 3 recorded terms and an unevaluated branch, a non-ASCII rune before a recorded term, or two values competing for a line"
 	R.Assume = []string{"ref.Eval's completion order; model.Print's token positions; lazy functions that force a thunk twice (lz_pick) are outside the domain (one term, two evaluations)"}
 	reportKnown(t, "C19")
 	runRegress(t, "C19")
